@@ -468,3 +468,37 @@ def integer_power_hazards(f, array_params):
             if isinstance(base, ast.Name) and base.id in arr and base.id not in floated:
                 out.append((n, "%s: integer power of the array argument `%s` in its own dtype" % (norm_text(n), base.id)))
     return out
+
+
+def canon_iteration_sums(v, length_of):
+    """sums accumulated by iterating over sequences (`for x in A`, `for a, b in zip(A, B)`, `for i, a in enumerate(A)`) written
+    as the sum over positions range(0, n): loopsum(body(pos#), tag, iteration-key) -> loopsum(body(pos), tag, (0, n, 1)).
+    `length_of(seq)` gives the number of items of a sequence as a normal form (None if unknown); zipped sequences must have
+    the same length for the rewrite to apply."""
+    from .plf import Rat, Sym, Fn
+
+    def seqs_of(key):
+        if isinstance(key, tuple) and key and key[0] == "zip" and len(key) == 2 and isinstance(key[1], tuple):
+            return list(key[1])
+        if isinstance(key, tuple) and key and key[0] == "enumerate" and len(key) == 2:
+            return seqs_of(key[1]) if isinstance(key[1], tuple) and key[1] and key[1][0] in ("zip",) else [key[1]]
+        if isinstance(key, Rat):
+            return [key]
+        return None
+
+    def f(a):
+        if isinstance(a, Fn) and a.name == "loopsum" and len(a.args) == 3 and isinstance(a.args[0], Rat):
+            body, tag, key = a.args
+            if isinstance(key, tuple) and len(key) == 3 and all(isinstance(x, Rat) for x in key):
+                return None
+            sq = seqs_of(key)
+            if not sq or not all(isinstance(x, Rat) for x in sq):
+                return None
+            ns = [length_of(x) for x in sq]
+            if any(n is None for n in ns) or any(not same_value(n, ns[0]) for n in ns[1:]):
+                return None
+            pos = Rat.atom(Sym(tag, ("int", "loopvar")))
+            body2 = body.subst(lambda x: pos if isinstance(x, Sym) and x.name == tag + "#" else None).subst(f)
+            return Rat.atom(Fn("loopsum", (body2, tag, (Rat.const(0), ns[0], Rat.const(1)))))
+        return None
+    return v.subst(f) if isinstance(v, Rat) else v
